@@ -41,6 +41,7 @@ type Analysis struct {
 	MaxDepth int
 	Obs      map[string]*Observation
 	Notes    map[string]bool
+	curFrame *Frame
 	memo     map[string]*exitState
 	active   map[*ssa.Function]int
 	steps    int
@@ -210,6 +211,7 @@ func (a *Analysis) analyze(f *Frame, entry State) *exitState {
 		var pred map[ssa.Value]*exitState
 		for _, instr := range b.Instrs {
 			a.steps++
+			a.curFrame = f
 			if st.IsEmpty() {
 				break
 			}
@@ -287,7 +289,7 @@ func (a *Analysis) splitByValue(f *Frame, b *ssa.BasicBlock, user ssa.Instructio
 		var ts, fs State
 		for i, pb := range b.Preds {
 			es := Intersect(edgeIn[[2]int{pb.Index, b.Index}], st)
-			t, fl := a.branchPred(f, phi.Edges[i], es, nil)
+			t, fl := a.branchPred(f, phi.Edges[i], es, nil, user, pb)
 			ts = Union(ts, t)
 			fs = Union(fs, fl)
 		}
@@ -296,7 +298,7 @@ func (a *Analysis) splitByValue(f *Frame, b *ssa.BasicBlock, user ssa.Instructio
 		}
 		return ts, fs
 	}
-	return a.branchPred(f, v, st, pred)
+	return a.branchPred(f, v, st, pred, user, nil)
 }
 
 // onlyPhisBefore reports whether everything before user in b is a phi, a debug reference or a
@@ -321,7 +323,7 @@ func onlyPhisBefore(b *ssa.BasicBlock, user ssa.Instruction, phi *ssa.Phi) bool 
 
 // branchPred splits st by cond, using the split exit state of an immediately preceding
 // predicate call when cond is (a negation of) its result.
-func (a *Analysis) branchPred(f *Frame, cond ssa.Value, st State, pred map[ssa.Value]*exitState) (State, State) {
+func (a *Analysis) branchPred(f *Frame, cond ssa.Value, st State, pred map[ssa.Value]*exitState, use ssa.Instruction, via *ssa.BasicBlock) (State, State) {
 	neg := false
 	c := cond
 	for {
@@ -338,14 +340,14 @@ func (a *Analysis) branchPred(f *Frame, cond ssa.Value, st State, pred map[ssa.V
 			ts, fs = fs, ts
 		}
 		// the call result may also be an atom of the rule itself (e.g. r.hasQuorum(n))
-		lt, lf := a.branch(f, cond, st)
+		lt, lf := a.branch(f, cond, st, use, via)
 		return Intersect(ts, lt), Intersect(fs, lf)
 	}
-	return a.branch(f, cond, st)
+	return a.branch(f, cond, st, use, via)
 }
 
 // branch splits st by the condition.
-func (a *Analysis) branch(f *Frame, cond ssa.Value, st State) (State, State) {
+func (a *Analysis) branch(f *Frame, cond ssa.Value, st State, use ssa.Instruction, via *ssa.BasicBlock) (State, State) {
 	if c, ok := cond.(*ssa.Const); ok && c.Value != nil && c.Value.Kind() == constant.Bool {
 		if constant.BoolVal(c.Value) {
 			return st, nil
@@ -360,6 +362,12 @@ func (a *Analysis) branch(f *Frame, cond ssa.Value, st State) (State, State) {
 		return nil, st
 	}
 	atom, mask, ok := a.literal(f, cond)
+	if ok && use != nil && !a.Space.Atoms[atom].History && !a.fresh(cond, use, via) {
+		// the condition was computed from memory that may have been written since: it says nothing about the
+		// current value of the atom's terms
+		ok = false
+		a.note("stale condition at " + a.P.InstrPos(use) + ": " + a.P.Canon(f, cond).S)
+	}
 	if traceFn != "" && strings.Contains(FuncName(f.Fn), traceFn) {
 		fmt.Fprintf(os.Stderr, "TRACE   cond %s matched=%v\n", a.P.Canon(f, cond).S, ok)
 	}
@@ -368,6 +376,343 @@ func (a *Analysis) branch(f *Frame, cond ssa.Value, st State) (State, State) {
 	}
 	all := uint32(1)<<uint(a.Space.Atoms[atom].N) - 1
 	return a.Space.Filter(st, atom, mask), a.Space.Filter(st, atom, all&^mask)
+}
+
+// fresh reports whether every memory read that v is computed from happened "just before" use: in the same block
+// (or, for a value arriving through a phi, at the end of the predecessor block via) with no instruction in between
+// that may write memory. Only then does a comparison of v describe the CURRENT value of the terms it canonicalises to.
+func (a *Analysis) fresh(v ssa.Value, use ssa.Instruction, via *ssa.BasicBlock) bool {
+	var reads []ssa.Instruction
+	seen := map[ssa.Value]bool{}
+	var walk func(x ssa.Value) bool
+	walk = func(x ssa.Value) bool {
+		if x == nil || seen[x] {
+			return true
+		}
+		seen[x] = true
+		switch y := x.(type) {
+		case *ssa.Const, *ssa.Parameter, *ssa.FreeVar, *ssa.Global, *ssa.Function, *ssa.Alloc, *ssa.Phi, *ssa.Builtin:
+			return true
+		case *ssa.UnOp:
+			if y.Op == token.MUL {
+				reads = append(reads, y)
+				return walk(y.X)
+			}
+			return walk(y.X)
+		case *ssa.BinOp:
+			return walk(y.X) && walk(y.Y)
+		case *ssa.Convert:
+			return walk(y.X)
+		case *ssa.ChangeType:
+			return walk(y.X)
+		case *ssa.MakeInterface:
+			return walk(y.X)
+		case *ssa.ChangeInterface:
+			return walk(y.X)
+		case *ssa.Field:
+			return walk(y.X)
+		case *ssa.FieldAddr:
+			return walk(y.X)
+		case *ssa.IndexAddr:
+			return walk(y.X) && walk(y.Index)
+		case *ssa.Index:
+			return walk(y.X) && walk(y.Index)
+		case *ssa.Extract:
+			return walk(y.Tuple)
+		case *ssa.Lookup:
+			reads = append(reads, y)
+			return walk(y.X) && walk(y.Index)
+		case *ssa.Slice:
+			return walk(y.X)
+		case *ssa.Call:
+			// the result of a call the analysis does not express as a term is just a register: it names an
+			// immutable value, there is nothing that could have changed since
+			if fr := a.curFrame; fr != nil && fr.Fn == y.Parent() && a.P.Canon(fr, y).Opaque {
+				return true
+			}
+			reads = append(reads, y)
+			for _, arg := range y.Common().Args {
+				if !walk(arg) {
+					return false
+				}
+			}
+			if y.Common().IsInvoke() {
+				return walk(y.Common().Value)
+			}
+			return true
+		case *ssa.Next, *ssa.Range, *ssa.MakeMap, *ssa.MakeSlice, *ssa.MakeChan, *ssa.MakeClosure, *ssa.TypeAssert:
+			return true
+		}
+		return true
+	}
+	walk(v)
+	fr := a.curFrame
+	for _, r := range reads {
+		rv, ok := r.(ssa.Value)
+		if !ok {
+			continue
+		}
+		var dep *Term
+		if fr != nil && fr.Fn == r.Parent() {
+			dep = a.P.Canon(fr, rv)
+		}
+		if !a.unchangedBetween(r, use, via, dep) {
+			if traceFn != "" {
+				fmt.Fprintf(os.Stderr, "TRACE   stale read %s (%s) before %s\n", r.String(), a.P.InstrPos(r), a.P.InstrPos(use))
+			}
+			return false
+		}
+	}
+	return true
+}
+
+// unchangedBetween reports whether, on every path from the read r to the use (or to the end of block via, for a
+// value that arrives through a phi), no instruction may change what r read. dep is the canonical term of the read
+// (nil = unknown: any writer counts).
+func (a *Analysis) unchangedBetween(r, use ssa.Instruction, via *ssa.BasicBlock, dep *Term) bool {
+	rb := r.Block()
+	ub := use.Block()
+	target := ub
+	if via != nil {
+		target = via
+	}
+	if rb != target && !rb.Dominates(target) {
+		return false
+	}
+	// blocks on some path from rb to target
+	fwd := map[*ssa.BasicBlock]bool{}
+	var f func(b *ssa.BasicBlock)
+	f = func(b *ssa.BasicBlock) {
+		if fwd[b] {
+			return
+		}
+		fwd[b] = true
+		if b == target {
+			return
+		}
+		for _, s := range b.Succs {
+			f(s)
+		}
+	}
+	f(rb)
+	bwd := map[*ssa.BasicBlock]bool{}
+	var g func(b *ssa.BasicBlock)
+	g = func(b *ssa.BasicBlock) {
+		if bwd[b] {
+			return
+		}
+		bwd[b] = true
+		if b == rb {
+			return
+		}
+		for _, p := range b.Preds {
+			g(p)
+		}
+	}
+	g(target)
+	for b := range fwd {
+		if !bwd[b] {
+			continue
+		}
+		started := b != rb
+		for _, in := range b.Instrs {
+			if in == r {
+				started = true
+				continue
+			}
+			if b == ub && via == nil && in == use {
+				break
+			}
+			if !started {
+				continue
+			}
+			if a.mayChange(in, dep) {
+				return false
+			}
+		}
+	}
+	if via != nil {
+		// in the use block only phis / negations may precede the use
+		for _, in := range ub.Instrs {
+			if in == use {
+				break
+			}
+			switch x := in.(type) {
+			case *ssa.Phi, *ssa.DebugRef:
+			case *ssa.UnOp:
+				if x.Op != token.NOT {
+					return false
+				}
+			default:
+				return false
+			}
+		}
+	}
+	return true
+}
+
+// mayChange reports whether instruction in may change the memory the term dep reads (dep == nil: any memory).
+func (a *Analysis) mayChange(in ssa.Instruction, dep *Term) bool {
+	if dep == nil {
+		return a.mayWrite(in)
+	}
+	fieldsHit := func(fs map[*types.Var]bool) bool {
+		for fl := range fs {
+			if dep.Fields[fl] {
+				return true
+			}
+		}
+		return false
+	}
+	switch x := in.(type) {
+	case *ssa.Store:
+		switch ad := x.Addr.(type) {
+		case *ssa.FieldAddr:
+			if al := rootAlloc(ad.X); al != nil && !al.Heap {
+				return dep.Regs[al]
+			}
+			return dep.Fields[fieldOf(ad.X.Type(), ad.Field)]
+		case *ssa.Alloc:
+			return dep.Regs[ad]
+		case *ssa.IndexAddr:
+			if al := rootAlloc(ad.X); al != nil {
+				return dep.Regs[al]
+			}
+			return dep.HasMap
+		}
+		return dep.Shared || dep.HasMap
+	case *ssa.MapUpdate:
+		return dep.HasMap
+	case *ssa.Send:
+		return false
+	case *ssa.RunDefers:
+		for _, b := range in.Parent().Blocks {
+			for _, y := range b.Instrs {
+				if d, ok := y.(*ssa.Defer); ok && a.callMayChange(d.Common(), dep, fieldsHit) {
+					return true
+				}
+			}
+		}
+		return false
+	case *ssa.Call:
+		return a.callMayChange(x.Common(), dep, fieldsHit)
+	}
+	return false
+}
+
+func (a *Analysis) callMayChange(c *ssa.CallCommon, dep *Term, fieldsHit func(map[*types.Var]bool) bool) bool {
+	if bi, ok := c.Value.(*ssa.Builtin); ok {
+		switch bi.Name() {
+		case "delete", "copy":
+			return dep.HasMap
+		}
+		return false
+	}
+	if op, _ := isMutexOp(c); op != "" {
+		switch op {
+		case "Mutex.Unlock", "RWMutex.Unlock", "Cond.Wait":
+			return dep.Shared
+		}
+		return false
+	}
+	if c.IsInvoke() {
+		iface := ifaceOf(c)
+		if iface == "" {
+			return false
+		}
+		return ifaceMutators[iface][c.Method.Name()] && dep.Ifaces[iface]
+	}
+	var callee *ssa.Function
+	switch v := c.Value.(type) {
+	case *ssa.Function:
+		callee = v
+	case *ssa.MakeClosure:
+		callee = v.Fn.(*ssa.Function)
+	default:
+		return true
+	}
+	if !a.P.InScope[callee] || a.P.IsNoReturnCall(c) {
+		return false
+	}
+	if callee.Pkg != nil && callee.Pkg.Pkg.Path() == ModulePath+"/logging" {
+		return false
+	}
+	eff := a.P.Effects(callee)
+	if eff.Unknown {
+		return true
+	}
+	if fieldsHit(eff.Fields) {
+		return true
+	}
+	for i := range eff.Ifaces {
+		if dep.Ifaces[i] {
+			return true
+		}
+	}
+	if eff.Maps && dep.HasMap {
+		return true
+	}
+	return eff.Window && dep.Shared
+}
+
+// cleanBetween reports whether no instruction strictly after from and before to (nil = end of block) in block b
+// may write memory the analysis cares about.
+func (a *Analysis) cleanBetween(b *ssa.BasicBlock, from, to ssa.Instruction) bool {
+	started := false
+	for _, in := range b.Instrs {
+		if in == to {
+			return started || from == nil
+		}
+		if in == from {
+			started = true
+			continue
+		}
+		if !started {
+			continue
+		}
+		if a.mayWrite(in) {
+			return false
+		}
+	}
+	return to == nil && started
+}
+
+// mayWrite is a conservative "this instruction can change memory or let other goroutines change it".
+func (a *Analysis) mayWrite(in ssa.Instruction) bool {
+	switch x := in.(type) {
+	case *ssa.Store, *ssa.MapUpdate, *ssa.Send, *ssa.RunDefers:
+		return true
+	case *ssa.Call:
+		c := x.Common()
+		if bi, ok := c.Value.(*ssa.Builtin); ok {
+			return bi.Name() == "delete" || bi.Name() == "copy" || bi.Name() == "append"
+		}
+		if op, _ := isMutexOp(c); op != "" {
+			return op != "Mutex.Lock" && op != "RWMutex.Lock" && op != "RWMutex.RLock" && op != "Cond.Broadcast" && op != "Cond.Signal"
+		}
+		if c.IsInvoke() {
+			iface := ifaceOf(c)
+			if iface == "" {
+				return false
+			}
+			return !ifaceObservers[iface][c.Method.Name()]
+		}
+		callee := c.StaticCallee()
+		if callee == nil {
+			return true
+		}
+		if !a.P.InScope[callee] {
+			return false
+		}
+		if callee.Pkg != nil && callee.Pkg.Pkg.Path() == ModulePath+"/logging" {
+			return false
+		}
+		if a.P.IsNoReturnCall(c) {
+			return false
+		}
+		return !a.P.Purity(callee).Pure
+	}
+	return false
 }
 
 func flipOp(op token.Token) token.Token {
@@ -628,7 +973,7 @@ func (a *Analysis) transfer(f *Frame, instr ssa.Instruction, st State) State {
 	}
 	switch in := instr.(type) {
 	case *ssa.Store:
-		return a.store(f, in.Addr, in.Val, st)
+		return a.store(f, in, in.Addr, in.Val, st)
 	case *ssa.MapUpdate:
 		m := a.P.Canon(f, in.Map)
 		return a.killMap(st, m)
@@ -718,7 +1063,7 @@ func (a *Analysis) killMap(st State, m *Term) State {
 	})
 }
 
-func (a *Analysis) store(f *Frame, addr, val ssa.Value, st State) State {
+func (a *Analysis) store(f *Frame, instr ssa.Instruction, addr, val ssa.Value, st State) State {
 	sp := a.Space
 	at := a.P.Canon(f, addr)
 	loc := at.S
@@ -789,6 +1134,10 @@ func (a *Analysis) store(f *Frame, addr, val ssa.Value, st State) State {
 	// establish
 	vt := a.P.Canon(f, val)
 	if containsTerm(vt.S, loc) || (fld != nil && vt.Fields[fld]) {
+		return st
+	}
+	if instr != nil && !a.fresh(val, instr, nil) {
+		// the stored value was read from memory that may have changed since: nothing to establish
 		return st
 	}
 	locTerm := derive(loc, at)
